@@ -531,3 +531,66 @@ pub fn sess_tri(sid: u64, n: i64, l: i64, ia: usize, ib: usize, tris: &[[P; 3]])
     }
     s
 }
+
+/// Re-execute recorded sessions against the current library: operands and the sequence of
+/// calls are taken from the record, everything the library returns is recorded afresh.
+pub fn rerun(line: &str, sid: Option<u64>) -> String {
+    let v: serde_json::Value = serde_json::from_str(line).expect("session json");
+    let mut s = Sess::new(
+        sid.unwrap_or_else(|| v["sid"].as_u64().unwrap_or(0)),
+        v["kind"].as_str().unwrap_or("rerun"),
+        v["family"].as_str().unwrap_or("?"),
+        v["seed"].as_u64().unwrap_or(0),
+    );
+    let mut rename: HashMap<String, String> = HashMap::new();
+    for e in v["events"].as_array().expect("events") {
+        match e["ev"].as_str().unwrap_or("") {
+            "def" => {
+                let mp: IMp = e["mp"]
+                    .as_array()
+                    .unwrap()
+                    .iter()
+                    .map(|p| {
+                        let rings: Vec<Vec<P>> = p
+                            .as_array()
+                            .unwrap()
+                            .iter()
+                            .map(|r| r.as_array().unwrap().iter().map(|q| (q[0].as_i64().unwrap(), q[1].as_i64().unwrap())).collect())
+                            .collect();
+                        IPoly { ext: rings.first().cloned().unwrap_or_default(), holes: rings.into_iter().skip(1).collect() }
+                    })
+                    .collect();
+                let mut rel = String::new();
+                for (k, val) in e.as_object().unwrap() {
+                    if ["ev", "name", "k", "mp"].contains(&k.as_str()) {
+                        continue;
+                    }
+                    if !rel.is_empty() {
+                        rel.push(',');
+                    }
+                    rel.push_str(&format!("{}:{}", run::jstr(k), val));
+                }
+                let name = e["name"].as_str().unwrap();
+                rename.insert(name.to_string(), name.to_string());
+                s.def(name, &mp, e["k"].as_i64().unwrap_or(0) as i32, &rel);
+            }
+            "call" => {
+                let g = |k: &str| e[k].as_str().unwrap().to_string();
+                let x = rename[&g("x")].clone();
+                let y = rename[&g("y")].clone();
+                let px = g("px").chars().next().unwrap();
+                let py = g("py").chars().next().unwrap();
+                let thr = e["thr"].as_u64().unwrap_or(0) as usize;
+                let before = s.events.len();
+                let res = s.call(&g("op"), &x, &y, px, py, g("F") == "f32");
+                if thr != 0 {
+                    let ev = s.events[before].replacen("\"thr\":0", &format!("\"thr\":{}", thr), 1);
+                    s.events[before] = ev;
+                }
+                rename.insert(g("res"), res);
+            }
+            _ => {}
+        }
+    }
+    s.finish()
+}
